@@ -667,7 +667,24 @@ func writerFunc(file, recv, name string, fields map[string]fieldSpec, recvAs *fi
 		}, extra)}
 }
 
+// ---- round 4, C15: the stack formatter (internal/stacktrace).  The *Stack handed to FormatStack is the ITERATOR value
+// (the frames not yet returned); `Next` is an intrinsic on it (runtime.Frames.Next: the next frame and whether more follow).
+func stackFmtFunc(name string, extra map[string]shim) transFunc {
+	return transFunc{file: "internal/stacktrace/stack.go", recv: "Formatter", name: name, lean: name,
+		fields:  map[string]fieldSpec{"b": {"b", "Buffer"}, "nonEmpty": {"nonEmpty", "bool"}},
+		types:   map[string]string{"runtime.Frame": "struct:Frame", "*Stack": "StackIter"},
+		structs: map[string][]fieldSpec{"Frame": {{"Function", "string"}, {"File", "string"}, {"Line", "int"}}},
+		calls: merge(bufferCalls, map[string]shim{
+			"Buffer.AppendInt": {kind: "mut", f: "Buffer.AppendInt"},
+			"StackIter.Next":   {kind: "mutext", f: "Frames.Next", res: []string{"struct:Frame", "bool"}},
+		}, extra)}
+}
+
 var transSpecs = []transSpec{
+	{table: "TransStackFmt", funcs: []transFunc{
+		stackFmtFunc("FormatFrame", nil),
+		stackFmtFunc("FormatStack", map[string]shim{"recv.FormatFrame": {kind: "fun", f: "FormatFrame"}}),
+	}},
 	{table: "TransWriters", funcs: []transFunc{
 		writerFunc("global.go", "loggerWriter", "Write", map[string]fieldSpec{"logFunc": {"logFunc", "LogFunc"}}, nil, map[string]shim{
 			// l.logFunc(msg): the call of the function value held by the receiver — recorded, handed that value and the message
